@@ -1,3 +1,4 @@
 import Aesop
 declare_aesop_rule_sets [Narrow]
 declare_aesop_rule_sets [NoClose]
+declare_aesop_rule_sets [ReadOnly]
